@@ -109,7 +109,7 @@ struct WorkerOut {
 }
 
 #[allow(clippy::too_many_arguments)]
-fn worker(prop: &'static str, thorough: bool, seed: u64, first_run: u64, runs: u64, w: u64, threads: u64, min_fail: Arc<AtomicU64>, want_digest: bool, known: Arc<Vec<Known>>) -> WorkerOut {
+fn worker(prop: &'static str, thorough: bool, seed: u64, first_run: u64, runs: u64, w: u64, threads: u64, min_fail: Arc<AtomicU64>, next: Arc<AtomicU64>, want_digest: bool, known: Arc<Vec<Known>>) -> WorkerOut {
     apimon::reset_thread_counters();
     let pi = prop_index(prop).unwrap();
     let mut preset = gen::preset_for(prop);
@@ -128,9 +128,22 @@ fn worker(prop: &'static str, thorough: bool, seed: u64, first_run: u64, runs: u
         digest: 0,
         known_hits: vec![0; known.len()],
     };
-    let mut i = first_run + w;
+    // dynamic work distribution in chunks of run indices: which worker executes a run never
+    // matters (a run's trace, verdict and probes depend on (seed, index) only; totals are sums)
+    const CHUNK: u64 = 32;
+    let _ = (w, threads);
     let end = first_run + runs;
-    while i < end {
+    let mut i = end;
+    let mut chunk_end = end;
+    loop {
+        if i >= chunk_end {
+            let a = next.fetch_add(CHUNK, Ordering::Relaxed);
+            if a >= end {
+                break;
+            }
+            i = a;
+            chunk_end = (a + CHUNK).min(end);
+        }
         if i > min_fail.load(Ordering::Relaxed) {
             break;
         }
@@ -202,7 +215,7 @@ fn worker(prop: &'static str, thorough: bool, seed: u64, first_run: u64, runs: u
         if out.failure.is_some() {
             break;
         }
-        i += threads;
+        i += 1;
     }
     out
 }
@@ -410,11 +423,13 @@ fn cmd_run(a: &Args) -> i32 {
     println!("midisim: property={} tier={} VERIF_SEED={} runs={} first_run={} threads={} profile={}", prop, tier, seed, runs, first_run, threads, profile);
 
     let min_fail = Arc::new(AtomicU64::new(u64::MAX));
+    let next = Arc::new(AtomicU64::new(first_run));
     let handles: Vec<_> = (0..threads)
         .map(|w| {
             let mf = min_fail.clone();
             let kn = known.clone();
-            std::thread::Builder::new().stack_size(16 << 20).spawn(move || worker(prop, thorough, seed, first_run, runs, w, threads, mf, want_digest, kn)).unwrap()
+            let nx = next.clone();
+            std::thread::Builder::new().stack_size(16 << 20).spawn(move || worker(prop, thorough, seed, first_run, runs, w, threads, mf, nx, want_digest, kn)).unwrap()
         })
         .collect();
     let mut outs = Vec::new();
